@@ -59,6 +59,11 @@ def main(run):
     if want(run, 'P'):
       with anchored(run, 'C12/P'):
         run_cases(run, 'contracts.stereo')
+    if want(run, 'F'):
+      with anchored(run, 'C12/F'):
+        # the observables of this property are (or read) memoised values: no covered mutator leaves one of them stale (engine F restricted to the keys these observables read)
+        from checks.fpart import run_F
+        run_F(run, entry_points=['stereogenic_tetrahedrons', 'stereogenic_allenes', 'stereogenic_cis_trans', '_translate_tetrahedron_sign', '_translate_cis_trans_sign', '_translate_allene_sign', '_wedge_map', 'add_wedge', 'calculate_cis_trans_from_2d', '_chiral_morgan', 'fix_stereo'])
     bounded_part(run, 'C12')
     run.assume('atom numbers enter the sign translators only through == / tuple.index (checked: the stub atoms raise on any other use)',
                'geometric sign functions: IEEE floats treated as real numbers (no rounding, no overflow)',
